@@ -13,7 +13,7 @@ i=0
 for cfg in "16 2" "5 1" "3 16" "16 4" "7 2" "1 1"; do
 	set -- $cfg
 	i=$((i+1))
-	VERIF_WORKER_GOMAXPROCS=$2 "$VERIF/check" "$ID" quick -runs "$RUNS" -workers "$1" -tracelog "$T/log$i" -evidence "$T/ev$i.json" >"$T/out$i" 2>&1
+	VERIF_WORKER_GOMAXPROCS=$2 "$VERIF/check" "$ID" quick -runs "$RUNS" -budget 1200 -workers "$1" -tracelog "$T/log$i" -evidence "$T/ev$i.json" >"$T/out$i" 2>&1
 	rc=$?
 	if [ $rc -ne 0 ]; then echo "determinism self-test: run $i ($cfg) exited $rc"; tail -5 "$T/out$i"; exit 2; fi
 	cat "$T"/log$i.* | sort -n > "$T/merged$i"
